@@ -128,7 +128,8 @@ func RunTLC(o TLCOpts) (*TLCResult, error) {
 		args = append(args, "-Dtlc2.tool.queue.IStateQueue=StateDeque")
 	}
 	args = append(args, "-cp", "/opt/veriftools/tla/tla2tools.jar:/opt/veriftools/tla/CommunityModules-deps.jar",
-		"tlc2.TLC", "-metadir", filepath.Join(scratch, "meta"), "-workers", strconv.Itoa(o.Workers), "-config", o.Cfg)
+		"tlc2.TLC", "-metadir", filepath.Join(scratch, "meta"), "-workers", strconv.Itoa(o.Workers), "-config", o.Cfg,
+		"-maxSetSize", "40000000")
 	if !o.Deadlock {
 		args = append(args, "-deadlock")
 	}
